@@ -9,6 +9,7 @@ mod c06;
 mod c07;
 mod c10;
 mod c11;
+mod c12;
 mod c13;
 mod c14;
 mod c15;
@@ -46,6 +47,7 @@ fn main() {
         "c07" => c07::run(&args),
         "c10" => c10::run(&args),
         "c11" => c11::run(&args),
+        "c12" => c12::run(&args),
         "c11-child" => c11::run_child(&args),
         "c13" => c13::run(&args),
         "c14" => c14::run(&args),
